@@ -2,9 +2,12 @@
 import os, subprocess, sys, time, fcntl, shutil
 
 VERIF = os.path.dirname(os.path.dirname(os.path.abspath(__file__)))
-HARNESS = os.path.join(VERIF, "harness")
+# ORX_HARNESS_DIR / ORX_WORK / ORX_OUT: used only by tools/seed_matrix.py to try seeded changes in scratch copies
+# (a harness copy whose path dependency points at a scratch worktree) without touching /repo or the committed evidence
+HARNESS = os.environ.get("ORX_HARNESS_DIR", os.path.join(VERIF, "harness"))
 LEAN = os.path.join(VERIF, "lean")
-WORK = os.path.join(VERIF, "work")
+WORK = os.environ.get("ORX_WORK", os.path.join(VERIF, "work"))
+OUT = os.environ.get("ORX_OUT", VERIF)
 ENV = dict(os.environ, CARGO_NET_OFFLINE="true")
 ENV.pop("RUSTFLAGS", None)
 
